@@ -10,10 +10,8 @@ theorem inv_step (s s' : St) (a : Act) (h : UInv s) (hs : step s a = some s') : 
   cases a with
   | arrive a =>
     simp only [step] at hs
-    split at hs
-    · injection hs with hs; subst hs
-      constructor <;> simp only [upd, PC.got] at * <;> grind
-    · cases hs
+    injection hs with hs; subst hs
+    constructor <;> simp only [upd, PC.got] at * <;> grind
   | loopPkt =>
     simp only [step] at hs
     split at hs
